@@ -645,3 +645,171 @@ func JudgeSession(plan *SessionPlan, obs *SessionObs, out rt.Outcome) []Violatio
 	}
 	return vs
 }
+
+// firstDiff returns the path of the first difference between two normalised values.
+func firstDiff(a, b any, path string) string {
+	switch x := a.(type) {
+	case map[any]any:
+		y, ok := b.(map[any]any)
+		if !ok {
+			return fmt.Sprintf("%s: %T vs %T", path, a, b)
+		}
+		for _, k := range sortedAnyKeys(x) {
+			if _, ok := y[k]; !ok {
+				return fmt.Sprintf("%s/%v: missing on the right", path, k)
+			}
+			if d := firstDiff(x[k], y[k], fmt.Sprintf("%s/%v", path, k)); d != "" {
+				return d
+			}
+		}
+		for _, k := range sortedAnyKeys(y) {
+			if _, ok := x[k]; !ok {
+				return fmt.Sprintf("%s/%v: missing on the left", path, k)
+			}
+		}
+		return ""
+	case []any:
+		y, ok := b.([]any)
+		if !ok || len(x) != len(y) {
+			return fmt.Sprintf("%s: lists differ", path)
+		}
+		for i := range x {
+			if d := firstDiff(x[i], y[i], fmt.Sprintf("%s[%d]", path, i)); d != "" {
+				return d
+			}
+		}
+		return ""
+	}
+	if !reflect.DeepEqual(a, b) {
+		return fmt.Sprintf("%s: %v (%T) vs %v (%T)", path, short(a), a, short(b), b)
+	}
+	return ""
+}
+
+func guardedErr(f func() error) (err error, panicked string) {
+	defer func() {
+		if r := recover(); r != nil {
+			panicked = fmt.Sprint(r)
+		}
+	}()
+	return f(), ""
+}
+
+// JudgeHelloFidelity evaluates C09's hello clause on a finished healthy session: the engine's copy of the
+// plugin schema (rebuilt from the hello message) and the plugin's own copy must be indistinguishable.
+func JudgeHelloFidelity(plan *SessionPlan, obs *SessionObs, out rt.Outcome) []Violation {
+	var vs []Violation
+	add := func(class, sig, detail string) { vs = append(vs, Violation{"C09", class, sig, detail}) }
+	if obs.Schema == nil || obs.SchemaErr != nil || obs.Plugin == nil {
+		return nil
+	}
+	own, err := obs.Plugin.SelfSerialize()
+	if err != nil {
+		return nil
+	}
+	d1, _ := Norm(own)
+	reb, err := obs.Schema.SelfSerialize()
+	if err != nil {
+		add("mismatch", "rebuilt-schema-cannot-describe-itself", err.Error())
+		return vs
+	}
+	d2, _ := Norm(reb)
+	if d := firstDiff(d1, d2, ""); d != "" {
+		add("mismatch", "description-changed-by-hello", "the schema rebuilt from the hello message describes itself differently from the plugin's own copy at "+d)
+		return vs
+	}
+	again, err := schema.UnserializeSchema(d2)
+	if err != nil {
+		add("mismatch", "redescription-rejected", err.Error())
+		return vs
+	}
+	reb2, err := again.SelfSerialize()
+	if err != nil {
+		add("mismatch", "redescription-cannot-describe-itself", err.Error())
+		return vs
+	}
+	d3, _ := Norm(reb2)
+	if d := firstDiff(d2, d3, ""); d != "" {
+		add("mismatch", "not-a-fixed-point", "describe/rebuild/describe changed the description at "+d)
+	}
+	// behaviour on the traffic of this session
+	refRec := newRecorder(plan.behaviours())
+	refRec.NoSleep = true
+	ref := BuildPlugin(plan.Plugin, refRec)
+	steps := obs.Schema.Steps()
+	accepts := func(t schema.Type, v any) (bool, string) {
+		var un any
+		err, pan := guardedErr(func() error {
+			var e error
+			un, e = t.Unserialize(v)
+			return e
+		})
+		if pan != "" {
+			return false, pan
+		}
+		if err != nil {
+			return false, ""
+		}
+		err, pan = guardedErr(func() error { return t.Validate(un) })
+		return err == nil && pan == "", pan
+	}
+	for ci, calls := range plan.Callers {
+		for i := range calls {
+			call := &calls[i]
+			st, ok := steps[call.Step]
+			pst, pok := ref.StepsValue[call.Step]
+			if ok != pok {
+				add("mismatch", "step-set-differs", call.Step)
+				continue
+			}
+			if !ok {
+				continue
+			}
+			nin, err := Norm(call.Input)
+			if err != nil {
+				continue
+			}
+			ea, p1 := accepts(st.Input(), nin)
+			pa, p2 := accepts(pst.Input(), nin)
+			if p1 != "" || p2 != "" {
+				continue // totality is not this property's business
+			}
+			if ea != pa {
+				add("mismatch", "input-verdict-differs", fmt.Sprintf("call %s: engine copy accepts=%v, plugin copy accepts=%v for input %s", call.RunID, ea, pa, short(nin)))
+			}
+			for _, sg := range call.Signals {
+				esig, eok := st.SignalHandlers()[sg.ID]
+				psig, pok := pst.SignalHandlers()[sg.ID]
+				if eok != pok {
+					add("mismatch", "signal-set-differs", sg.ID)
+					continue
+				}
+				if !eok {
+					continue
+				}
+				nd, _ := Norm(sg.Data)
+				ea, _ := accepts(esig.DataSchema(), nd)
+				pa, _ := accepts(psig.DataSchema(), nd)
+				if ea != pa {
+					add("mismatch", "signal-verdict-differs", fmt.Sprintf("signal %s of %s: engine copy accepts=%v, plugin copy accepts=%v", sg.ID, call.RunID, ea, pa))
+				}
+			}
+			if plan.CloseEarly || ci >= len(obs.Results) || i >= len(obs.Results[ci]) {
+				continue
+			}
+			got := obs.Results[ci][i]
+			if got.Returned == 1 && got.Res.Error == nil {
+				o, ok := st.Outputs()[got.Res.OutputID]
+				if !ok {
+					add("mismatch", "output-id-unknown-to-engine-copy", fmt.Sprintf("call %s returned output %q which the engine's copy of the schema does not declare", call.RunID, got.Res.OutputID))
+					continue
+				}
+				err, pan := guardedErr(func() error { _, e := o.Schema().Unserialize(got.Res.OutputData); return e })
+				if pan == "" && err != nil {
+					add("mismatch", "output-rejected-by-engine-copy", fmt.Sprintf("call %s: output %q sent by the plugin is rejected by the engine's copy of the output schema: %v", call.RunID, got.Res.OutputID, err))
+				}
+			}
+		}
+	}
+	return vs
+}
